@@ -1520,7 +1520,7 @@ func (analyser *BurndownAnalysis) groupSparseHistory(
 	samples := lastTick/analyser.Sampling + 1
 	bands := lastTick/analyser.Granularity + 1
 	result := make(DenseHistory, samples)
-	for i := 0; i < bands; i++ {
+	for i := 0; i < samples; i++ {
 		result[i] = make([]int64, bands)
 	}
 	prevsi := 0
